@@ -2,38 +2,82 @@ from vdriver import U
 
 PROPERTY = {
     "level": "proof",
-    "explanation": "placeholder",
-    "trusted_base": [],
-    "assumptions": [],
-    "not_applicable_clauses": [],
+    "explanation": "verification build with every A_HAVE_* libm switch off, so the library's own fallback bodies are the verified text. "
+                   "a_real_atan2: axis/quadrant logic for all non-NaN inputs (not both infinite) on top of an assumed contract for atan; "
+                   "a_real_asinh/acosh/atanh/expm1/log1p: branch structure (NaN/inf/zero cases, domain edges, odd symmetry asinh(-x) = -asinh(x), atanh(-x) = -atanh(x), tiny-argument pass-through, which published formula in which range) with libm as uninterpreted functions under assumed contracts; "
+                   "a_real_norm2/norm3/norm/norm_: +inf for an infinite component, NaN only for a NaN component, never negative, +0 for the zero vector, memory safety on tight blocks for strides 1..3; "
+                   "copy/swap/fill/zero/push/roll helpers and their strided or block forms: exact bit-for-bit permutation/shift/fill semantics through a ghost witness cell, frame (cells between strided entries, source blocks), all lengths up to a small bound including 0 and 1; "
+                   "sum/sum1/sum2/mean/dot and strided forms: equal to the defining left fold on the exact integer domain; coordinate conversions: call protocol",
+    "trusted_base": [
+        "cbmc 6.11.0 (IEEE-754 bit-precise float encoding, round-to-nearest; built-in fabs/isnan/isinf; byte-level memcpy/memmove models; malloc model)",
+        "cvc5 for the floating-point obligations",
+        "a_real = double, LP64; verification configuration /verif/config/a.verif.h (all A_HAVE_* libm switches off)",
+        "libm by assumed contracts (stubs in harness/rmath.c; each function is an uninterpreted function of its argument, constrained where it is called): "
+        "atan: NaN->NaN, result in [-pi/2, pi/2] as doubles, strictly of the sign of a non-zero argument, atan(+-0) = +-0; "
+        "log: NaN for negative/NaN, -inf at 0, +0 at 1, negative finite on (0,1), positive finite on (1,inf), +inf at +inf; "
+        "sqrt: NaN for negative/NaN, sqrt(+-0) = +-0, +inf at +inf, otherwise finite positive and on the same side of 1 as the argument (between 1 and x, resp. x and 1); "
+        "exp: NaN->NaN, >= 0, <= 1 for x <= 0, >= 1 for x >= 0, finite for x <= 0; sin/cos: NaN for NaN/inf, otherwise in [-1, 1]",
+    ],
+    "assumptions": [
+        "'returns the mathematical value to within a small multiple of machine precision, identically accurate whether bound to libm or to the fallback' (asinh, acosh, atanh, expm1, log1p, atan2, norms, coordinate conversions): not applicable - an accuracy statement needs real-analysis reasoning about rounded polynomial/log/sqrt evaluations that no contract within the solver's reach expresses; decided instead: the branch structure and special values of the fallback bodies",
+        "'norms do not overflow or underflow when the true result is representable': not applicable (needs magnitude reasoning over IEEE quotients and products; no answer from the solver on such range facts)",
+        "configurations: only the fallback setting of every A_HAVE_* switch is verified (with a switch on, the name is a macro alias of the libm function and no library code is compiled); real type double only (float: thorough tier not provided)",
+        "atan2 for NaN arguments and for two infinite arguments is outside the quantifier (finite arguments): the fallback returns 0 or +-pi/2 for atan2(y, NaN) and NaN for atan2(+-inf, +-inf); signed-zero refinements of ISO C (atan2(-0, x<0) = -pi, atan2(+-0, -0) = +-pi) are not part of the statement: the fallback gives +pi and 0 there",
+        "odd symmetry and the range-split formulas are relative to libm being a function (same argument, same result) - modelled by uninterpreted functions",
+        "data movement and reductions bounded: lengths <= 8 (contiguous) / <= 4 (strided, block forms), strides 1..3, every length concrete on its path (case split) so that memcpy/memmove lengths are constants: units of level B",
+        "sum/mean/dot equal their left fold only on the exact domain (integers |v| <= 2^10: every product and partial sum exact, so the verdict does not depend on the association); mean is the fold of entry*(1/n) and equals (sum)/n exactly for n in {1,2,4} (concrete vectors) - for other n the two differ by rounding",
+        "fold_spot is a test on concrete vectors, not a proof: it backs fold/fold_strided, whose proof rests on code and reference building the same terms (for a wrong formula the solver may fail to produce a counterexample in time)",
+        "the strided readers and writers advance their cursor once more after the last entry, i.e. they form (never access) a pointer up to c-1 cells beyond one-past-the-end of a tight block; cbmc's pointer check only judges accesses",
+        "norm value units: n <= 3 (plain and stride 2); memory safety of norm/norm_: n <= 4, strides 1..3, with libm unconstrained",
+        "ghost witness cell stands for the universal quantifier over array cells",
+    ],
+    "not_applicable_clauses": [
+        "accuracy to a small multiple of machine precision (all special functions, norms, coordinate conversions)",
+        "identical accuracy of the libm binding and the fallback",
+        "norms do not overflow or underflow when the true result is representable",
+    ],
+    "parameters_concretised": ["lengths 0..8 and strides 1..3 per path (case split)", "A_HAVE_* switches: all off", "a_real = double"],
 }
 RP = {"native": True, "sources": []}   # harness/rmath.c includes src/a.c and src/math.c itself
 def R(name, fns, **kw):
-    kw.setdefault("timeout", 120)
+    kw.setdefault("timeout", 600)
     kw.setdefault("min_obl", 3)
     return U(name, "rmath.c", kw.pop("entry", "h_rm_" + name), functions=fns, replay=RP, **kw)
-def F(name, fns, **kw):   # loop-free floating point: cvc5, one query per obligation
+def F(name, fns, **kw):   # floating point: cvc5, one query per obligation
     kw.setdefault("solver", "cvc5"); kw.setdefault("split", 4)
     return R(name, fns, **kw)
+MV = dict(unwind=12, level="B", cbmc=["--object-bits", "12"])
 UNITS = [
-    F("atan2", ["a_real_atan2"]),
-    F("asinh", ["a_real_asinh", "a_real_log1p"]),
-    F("acosh", ["a_real_acosh", "a_real_log1p"]),
-    F("atanh", ["a_real_atanh", "a_real_log1p"]),
-    F("expm1_log1p", ["a_real_expm1", "a_real_log1p"], unwind=6),
-    F("norm2", ["a_real_norm2"]),
-    F("norm3", ["a_real_norm3"]),
-    F("coord", ["a_real_cart2pol", "a_real_pol2cart", "a_real_cart2sph", "a_real_sph2cart"]),
-    R("norm", ["a_real_norm", "a_real_norm_"], unwind=12, level="B", bound="n <= 4, strides 1..3", solver="cvc5"),
-    R("fold", ["a_real_sum", "a_real_sum1", "a_real_sum2", "a_real_mean", "a_real_dot"], unwind=12, level="B", bound="n <= 6; exact domain", solver="cvc5"),
-    R("mean_pow2", ["a_real_mean"], unwind=12, level="B", bound="n in {1,2,4}; exact domain", solver="cvc5"),
-    R("fold_strided", ["a_real_sum_", "a_real_sum1_", "a_real_sum2_", "a_real_mean_", "a_real_dot_"], unwind=12, level="B", bound="n <= 4, strides 1..3; exact domain", solver="cvc5"),
-    R("fold_spot", ["a_real_sum"], unwind=12, level="B", bound="concrete vectors", cbmc=["--object-bits", "12"]),
-    R("copy", ["a_real_copy", "a_real_copy_"], unwind=12, level="B", bound="n <= 4, strides 1..3", cbmc=["--object-bits", "12"]),
-    R("swap", ["a_real_swap", "a_real_swap_"], unwind=12, level="B", bound="n <= 4, strides 1..3", cbmc=["--object-bits", "12"]),
-    R("fill_zero", ["a_real_fill", "a_real_zero"], unwind=12, level="B", bound="n <= 8"),
-    R("roll", ["a_real_roll_fore", "a_real_roll_back"], unwind=12, level="B", bound="n <= 8"),
-    R("pushes", ["a_real_push_fore_", "a_real_push_back_"], unwind=12, level="B", bound="block_n <= 4, cache_n <= 5", cbmc=["--object-bits", "12"]),
-    R("rolls", ["a_real_roll_fore_", "a_real_roll_back_"], unwind=12, level="B", bound="1 <= block_n <= 4, shift_n <= 5", cbmc=["--object-bits", "12"]),
-    R("rolls_empty", ["a_real_roll_fore_", "a_real_roll_back_"], unwind=12, level="B", bound="block_n == 0, shift_n <= 2"),
+    F("atan2", ["a_real_atan2"], key=["exactly \\+pi/2", "exactly -pi/2", "x > 0 gives atan", "lies in \\[pi/2, pi\\]", "lies in \\[-pi, -pi/2\\]"], min_obl=10, cost=30),
+    F("asinh", ["a_real_asinh", "a_real_log1p"], key=["asinh: odd", "pass through"], cost=80),
+    F("asinh_branches", ["a_real_asinh", "a_real_log1p"], key=["log\\|x\\| \\+ ln 2"], cost=50),
+    F("acosh", ["a_real_acosh", "a_real_log1p"], key=["NaN below 1", "acosh\\(1\\) = \\+0"], min_obl=6, cost=30),
+    F("atanh", ["a_real_atanh", "a_real_log1p"], key=["atanh: odd", "atanh\\(1\\) = \\+inf", "NaN outside"], min_obl=6, cost=100),
+    F("atanh_branches", ["a_real_atanh", "a_real_log1p"], min_obl=2, cost=80),
+    F("expm1_log1p", ["a_real_expm1", "a_real_log1p"], unwind=6, key=["-inf gives -1", "log1p\\(-1\\) = -inf"], min_obl=10, cost=80),
+    F("norm2", ["a_real_norm2"], key=["NaN only if", "never negative", "zero vector"], cost=30),
+    F("norm3", ["a_real_norm3"], key=["NaN only if", "never negative", "zero vector"], cost=30),
+    F("coord", ["a_real_cart2pol", "a_real_pol2cart", "a_real_cart2sph", "a_real_sph2cart"], key=["cart2pol", "sph2cart"], min_obl=10, cost=30),
+    R("norm_mem", ["a_real_norm", "a_real_norm_"], bound="n <= 4, strides 1..3; libm unconstrained, values not judged", defines=["VERIF_LIBM_ANY"],
+      key=["array is only read"], min_obl=20, **dict(MV, cbmc=["--slice-formula", "--object-bits", "12"])),
+    F("norm_val", ["a_real_norm"], unwind=12, level="B", bound="n <= 3", key=["NaN only if", "never negative", "zero vector"], min_obl=20, cost=120),
+    F("norm_val_s2", ["a_real_norm_"], entry="h_rm_norm_val", defines=["CD=2"], unwind=12, level="B", bound="n <= 3, stride 2", key=["NaN only if", "never negative"], min_obl=20, cost=120),
+    F("norm_val_s1", ["a_real_norm_"], entry="h_rm_norm_val", defines=["CD=1"], unwind=12, level="B", bound="n <= 3, stride 1", min_obl=20, tiers=("thorough",), timeout=1800),
+    F("norm_val_s3", ["a_real_norm_"], entry="h_rm_norm_val", defines=["CD=3"], unwind=12, level="B", bound="n <= 3, stride 3", min_obl=20, tiers=("thorough",), timeout=1800),
+    R("fold", ["a_real_sum", "a_real_sum1", "a_real_sum2", "a_real_mean", "a_real_dot"], unwind=12, level="B", bound="n <= 6; exact domain: integers |v| <= 2^10", solver="cvc5",
+      key=["sum: left fold", "dot: left fold", "mean: left fold"], min_obl=50, cost=60),
+    R("fold_strided", ["a_real_sum_", "a_real_sum1_", "a_real_sum2_", "a_real_mean_", "a_real_dot_"], unwind=12, level="B", bound="n <= 4, strides 1..3 (both strides of dot_); exact domain: integers |v| <= 2^10", solver="cvc5",
+      key=["sum_: left fold", "dot_: left fold"], min_obl=50, cost=60),
+    R("fold_spot", ["a_real_sum", "a_real_sum_", "a_real_sum1", "a_real_sum1_", "a_real_sum2", "a_real_sum2_", "a_real_mean", "a_real_mean_", "a_real_dot", "a_real_dot_"],
+      bound="n <= 6 (strided: n <= 4, strides 1..3); two concrete integer vectors (a test backing fold / fold_strided)", key=["concrete vector", "dot_: left fold"], min_obl=50, **MV),
+    R("copy", ["a_real_copy", "a_real_copy_"], bound="n <= 4, strides 1..3 on both sides", key=["destination entry i is source entry i", "between the strided destination entries"], min_obl=30, cost=50, **MV),
+    R("swap", ["a_real_swap", "a_real_swap_"], bound="n <= 4, strides 1..3 on both sides", key=["left entry i is the old right entry i", "right entry i is the old left entry i"], min_obl=30, cost=80, **MV),
+    R("fill_zero", ["a_real_fill", "a_real_zero"], bound="n <= 8", key=["fill: every entry", "zero: every entry"], min_obl=10, **MV),
+    R("roll", ["a_real_roll_fore", "a_real_roll_back"], bound="n <= 8", key=["roll_fore: entry w", "roll_back: entry w"], min_obl=10, **MV),
+    R("pushes", ["a_real_push_fore_", "a_real_push_back_"], bound="block_n <= 4, cache_n <= 5", key=["push_fore_: the block starts", "push_back_: the block ends"], min_obl=30, cost=50, **MV),
+    R("rolls", ["a_real_roll_fore_", "a_real_roll_back_"], bound="1 <= block_n <= 4, shift_n <= 5", key=["roll_fore_: entry w", "roll_back_: entry w"], min_obl=30, cost=30, **MV),
+    R("rolls_empty", ["a_real_roll_fore_", "a_real_roll_back_"], bound="block_n == 0, shift_n <= 2", key=["empty block is accepted"], min_obl=3, **MV),
+    # the single-element shifts are C16's units (harness/tf.c); listed here because the property names the shift helpers
+    U("push_fore", "tf.c", "h_push_fore", functions=["a_real_push_fore"], unwind=10, level="B", bound="n <= 8", key=["entry w is the old entry w-1"], min_obl=10, replay=RP, timeout=600),
+    U("push_back", "tf.c", "h_push_back", functions=["a_real_push_back"], unwind=10, level="B", bound="n <= 8", key=["entry w is the old entry w\\+1"], min_obl=10, replay=RP, timeout=600),
 ]
